@@ -146,6 +146,7 @@ fn observe_set(store: &AnnotationStore, h: usize, probes: &[Sx], values: &[Sx]) 
 
 impl Ctx {
     pub fn new() -> Self {
+        crate::storegen::BARE_KEYS.store(true, std::sync::atomic::Ordering::Relaxed);
         NEAR_ONE.store(true, std::sync::atomic::Ordering::Relaxed);
         Ctx {}
     }
